@@ -633,7 +633,7 @@ def shrink(v: dict) -> dict:
             r = still_fails(c)
         except Exception:  # noqa: BLE001
             return False
-        if r:
+        if r and r["what"] == v["what"]:
             best, case = r, c
             return True
         return False
